@@ -488,11 +488,12 @@ def run_jobs(jobs, workers):
 # =====================================================================================================
 
 def select_quick(rows: list[Row]) -> list[int]:
-    """every written name x every target kind (shortest row containing it), every argument count, every row with a
+    """every written name x every target kind x every argument count (shortest row containing it), every row with a
     classical (rec / sweep) target, every pattern of the annotations"""
     chosen: dict = {}
     for i, r in enumerate(rows):
-        tags = ([(r.name, "nargs", r.nargs)] if r.pat else []) + [(r.name, k) for k in set(r.pat)] + ([(r.name, "empty", r.nargs)] if not r.pat else [])
+        # every target kind is crossed with every argument count (a flag and an argument can interact: `M(p) !q`)
+        tags = ([(r.name, "nargs", r.nargs)] if r.pat else []) + [(r.name, k, r.nargs) for k in set(r.pat)] + ([(r.name, "empty", r.nargs)] if not r.pat else [])
         for t in tags:
             if t not in chosen or len(rows[chosen[t]].pat) > len(r.pat):
                 chosen[t] = i
